@@ -51,11 +51,11 @@ def run_case(case):
         args_ok = False
 
     def ballot_ok(b):
-        sc = {c: Fraction(v) for c, v in (b.get("s") or {}).items() if Fraction(v) != 0}
+        sc = {c: Fraction(v).limit_denominator() for c, v in (b.get("s") or {}).items() if Fraction(v).limit_denominator() != 0}
         return bool(sc) and all(0 <= v <= L for v in sc.values()) and (k is None or sum(sc.values()) <= k)
     prof_ok = all(ballot_ok(b) for b in jp["ballots"])
     cs = list(prof.candidates)
-    totals = {c: sum((Fraction((b.get("s") or {}).get(c, 0)) * Fraction(b["w"]) for b in jp["ballots"]), Fraction(0)) for c in cs}
+    totals = {c: sum((Fraction((b.get("s") or {}).get(c, 0)).limit_denominator() * Fraction(b["w"]) for b in jp["ballots"]), Fraction(0)) for c in cs}
     sc_sorted = sorted(totals.values(), reverse=True)
     straddle = 1 <= m < len(cs) and sc_sorted[m - 1] == sc_sorted[m]
     if not args_ok:
